@@ -101,6 +101,11 @@ BOUNDED = {
                      'points delivered by AssetIndex: the generator of exactly the named asset takes them (a twin of the statistics the table held, fed the same points), every other '
                      'asset generator is untouched, one generator per asset of the table',
                 bound={'quick': 'curves of up to 7 points over 5 values + 10k random walks + 2^n x n routing cases', 'thorough': 'up to 7 points over 7 values + 150k random walks'}),
+    'C16': dict(what='closed positions through the REAL TearSheetGenerator / TradingSummaryGenerator (positions made by the real PositionManager and direct ones: wins, losses, break-even, '
+                     'different sizes / entry prices, ties in exit time across instruments, out-of-order exits, clock updates): PnL, win rate, profit factor, returns and their statistics '
+                     'of every tear sheet against sums recomputed from the history: crafted histories, every history up to a depth bound over 7 position shapes, seeded random histories '
+                     'over up to 3 instruments',
+                bound={'quick': 'depth 5 over 7 shapes + 1.5k random histories', 'thorough': 'depth 6 + 20k random histories'}),
     'C15': dict(what='the REAL EngineState (and, for half of the random histories, Engine::process) over six instruments on several exchanges: every sequence with repetition '
                      'up to a length bound over four event alphabets (trades with receive latency larger than the exchange-time gaps, equal / older exchange times, fills stamped '
                      'later than the following market data, two-sided / one-sided / weighted L1 books) plus seeded random histories of 6..65 events; after every delivery: the '
